@@ -99,11 +99,17 @@ static void engine(void)
     if (ref_init()) exit(2);
     init_liberasurecode_rs_vand_pin();
     int thorough = !strcmp(vh_tier(), "thorough");
-    static const struct shape cfgs[] = {
-        { EC_BACKEND_LIBERASURECODE_RS_VAND, 4, 2, 2 }, { EC_BACKEND_FLAT_XOR_HD, 5, 5, 3 }, { EC_BACKEND_ISA_L_RS_VAND, 4, 2, 2 }, { EC_BACKEND_NULL, 2, 1, 1 },
-        { EC_BACKEND_ISA_L_RS_CAUCHY, 3, 3, 3 }, { EC_BACKEND_LIBERASURECODE_RS_VAND, 1, 1, 1 }, { EC_BACKEND_FLAT_XOR_HD, 6, 6, 4 }, { EC_BACKEND_LIBERASURECODE_RS_VAND, 10, 4, 4 },
-    };
-    int ncfg = thorough ? 8 : 5;
+    /* every (k,m) with k+m <= small_n for the three matrix backends (so k < m, k == m, k > m, k == 1 and m == 1 all occur), the
+     * flat-XOR representatives of each table family, null, and a few larger shapes */
+    static struct shape cfgs[1200]; int ncfg = 0;
+    int small_n = (int)vh_opt("small_n", thorough ? 16 : 10);
+    static const int bes[3] = { EC_BACKEND_LIBERASURECODE_RS_VAND, EC_BACKEND_ISA_L_RS_VAND, EC_BACKEND_ISA_L_RS_CAUCHY };
+    for (int n = 2; n <= small_n; n++) for (int k = 1; k < n; k++) for (int b = 0; b < 3; b++) { struct shape t = { bes[b], k, n - k, n - k }; cfgs[ncfg++] = t; }
+    { static const struct shape extra[] = { { EC_BACKEND_FLAT_XOR_HD, 3, 3, 3 }, { EC_BACKEND_FLAT_XOR_HD, 5, 5, 3 }, { EC_BACKEND_FLAT_XOR_HD, 6, 6, 4 }, { EC_BACKEND_NULL, 2, 1, 1 },
+                                            { EC_BACKEND_LIBERASURECODE_RS_VAND, 10, 4, 4 }, { EC_BACKEND_LIBERASURECODE_RS_VAND, 4, 10, 10 }, { EC_BACKEND_ISA_L_RS_VAND, 3, 12, 12 },
+                                            { EC_BACKEND_FLAT_XOR_HD, 10, 5, 4 }, { EC_BACKEND_FLAT_XOR_HD, 12, 6, 4 }, { EC_BACKEND_FLAT_XOR_HD, 15, 6, 3 } };
+      for (int i = 0; i < (thorough ? 10 : 7); i++) cfgs[ncfg++] = extra[i]; }
+    int triples_n = (int)vh_opt("triples_n", thorough ? 16 : 6);
     for (int ci = 0; ci < ncfg; ci++) {
         struct shape sh = cfgs[ci];
         if (!vh_group_begin("X/%s/k%dm%dhd%d", be_name(sh.be), sh.k, sh.m, sh.hd)) continue;
@@ -122,7 +128,7 @@ static void engine(void)
         for (long f1 = 1; f1 <= N; f1++) for (long f2 = f1 + 1; f2 <= N + 2; f2++) {
             if (vh_case_begin("fail@%ld,%ld", f1, f2)) { tap_reset(); tap_fail_at[0] = f1; tap_fail_at[1] = f2; workload(&ref, 0); }
         }
-        if (thorough) for (long f1 = 1; f1 <= N; f1++) for (long f2 = f1 + 1; f2 <= N + 1; f2++) for (long f3 = f2 + 1; f3 <= N + 2; f3++) {
+        if (sh.k + sh.m <= triples_n) for (long f1 = 1; f1 <= N; f1++) for (long f2 = f1 + 1; f2 <= N + 1; f2++) for (long f3 = f2 + 1; f3 <= N + 2; f3++) {
             if (vh_case_begin("fail@%ld,%ld,%ld", f1, f2, f3)) { tap_reset(); tap_fail_at[0] = f1; tap_fail_at[1] = f2; tap_fail_at[2] = f3; workload(&ref, 0); }
         }
         tap_reset();
